@@ -231,8 +231,35 @@ def maybe_yes(a):
 class C09(Prop):
     id = "C09"
     driver = "C09"
-    lean_modules = ["Pfb.C09.Model"]
-    theorems = []
+    lean_modules = ["Pfb.C09.Props"]
+    theorems = [
+        "Pfb.C09.C09_safety",
+        "Pfb.C09.C09_print_diff_only",
+        "Pfb.C09.C09_ifchanged",
+        "Pfb.C09.C09_query_no",
+        "Pfb.C09.C09_rewriter_failure",
+        "Pfb.C09.C09_follow_only_target",
+        "Pfb.C09.C09_links_preserved",
+        "Pfb.C09.C09_skip_error_untouched_acts",
+        "Pfb.C09.C09_skip_error_untouched_partial",
+        "Pfb.C09.C09_follow_links_kept_partial",
+        "Pfb.C09.C09_isolation_partial",
+        "Pfb.C09.C09_rewriter_once",
+        "Pfb.C09.parse_fixed_policy",
+        "Pfb.C09.C09_skip_error_untouched_fixed",
+        "Pfb.C09.C09_links_kept_fixed",
+        "Pfb.C09.D4_fixed_witness",
+        "Pfb.C09.parse_policy_present",
+        "Pfb.C09.policyActionPresent_configured",
+        "Pfb.C09.runActions_change",
+        "Pfb.C09.D4_witness",
+        "Pfb.C09.D4_witness_default",
+        "Pfb.C09.D4_witness_follow",
+        "Pfb.C09.C09_skip_error_untouched_full_false",
+        "Pfb.C09.D12_witness",
+        "Pfb.C09.D12_witness_summary",
+        "Pfb.C09.C09_isolation_full_false",
+    ]
     anchors = [
         ("lib/python/pyflyby/_cmdline.py", "parse_args"),
         ("lib/python/pyflyby/_cmdline.py", "process_actions"),
@@ -255,19 +282,53 @@ class C09(Prop):
         ("bin/reformat-imports", None),
         ("bin/transform-imports", None),
     ]
-    quick_cases = 520
+    quick_cases = 1000
     thorough_cases = 9000
     quick_deadline_s = 70
     thorough_deadline_s = 700
-    rule = ""
-    trusted_base = []
-    assumptions = []
+    rule = ("real invocations of bin/tidy-imports | reformat-imports | transform-imports (in-process, __main__) on fresh temp "
+            "trees: option lists = shuffles of 0-2 action options (--actions=<1-4 of PRINT/REPLACE/IFCHANGED/QUERY/DIFF/EXIT1/"
+            "EXECUTE:true/EXECUTE:echo> or -p/-d/-r/-R/-i) and 0-2 --symlinks options (rarely an invalid value), placed before "
+            "or after the files; 1-5 arguments over regular files (changed / unchanged / unparsable / re-rewritable / undecodable / "
+            "empty), symlinks (target listed or not, chains), dangling symlinks, missing names, directories (with .py, non-.py, "
+            "hidden, __pycache__, nested, symlink children), repeated arguments; 0-6 answers; plus a sampled (quick) / full "
+            "(thorough) small scope: every action list of length <= 3 x policy placement x 4 file sequences, every file sequence "
+            "of length <= 3 over 7 kinds x 12 configurations x policies.  Non-trivial: at least one file is processed or the exit "
+            "status is non-zero; distinct by the whole case")
+    trusted_base = ["the rewriter is a parameter of the model; for K its graph on the texts of a case is taken from the real tool "
+                    "(`<tool> file`, default PRINT) and closed under re-application",
+                    "modelled, not verified: the kernel's path resolution (symlinks followed up to 40 links, realpath), "
+                    "atomic_write_file as 'target becomes a new regular file with the output' (its own failure modes are C08), "
+                    "optparse's dispatch of callbacks in command-line order",
+                    "which set_actions variant the model uses (pinned tree / tree with fixes/C09-D4.diff) is chosen by one probe "
+                    "invocation at setup (or VERIF_C09_KEEP); everything else is compared"]
+    assumptions = ["DIFF / EXECUTE commands do not touch the argument files (the harness uses pyflyby-diff, true, echo)",
+                   "stdin/stdout are not ttys (default action PRINT); --debug/--verbose (documented fail-fast) are not used",
+                   "text-mode reading: CRLF files, hard links and symlinked directories are outside the modelled tree shapes",
+                   "KeyboardInterrupt at a QUERY prompt (SystemExit(1)) is not modelled"]
 
     _scratch = None
+    _keep = False     # which variant of the model corresponds to the tree: False = pinned (D4 present)
 
     # -- lifecycle -----------------------------------------------------------
     def setup(self, tier, rng):
         self._scratch = tempfile.mkdtemp(prefix="pfbC09.")
+        self._keep = self._probe_keep()
+
+    def _probe_keep(self):
+        """One bit decides which `set_actions` the model uses (Model.lean `setActions keep`): does an action
+        option keep the symlink policy action (tree with fixes/C09-D4.diff) or drop it (pinned tree)?
+        Everything else about the tree is then checked against that variant by K."""
+        v = os.environ.get("VERIF_C09_KEEP")
+        if v in ("0", "1"):
+            return v == "1"
+        d = tempfile.mkdtemp(prefix="probe.", dir=self._scratch)
+        try:
+            build_tree(d, {"t.py": ["file", content("C", 1)], "l.py": ["link", "t.py"]})
+            invoke("reformat-imports", ["--symlinks=skip", "--replace", os.path.join(d, "l.py")], "", d)
+            return os.path.islink(os.path.join(d, "l.py"))
+        finally:
+            shutil.rmtree(d, ignore_errors=True)
 
     def teardown(self):
         if self._scratch:
@@ -282,6 +343,61 @@ class C09(Prop):
     # -- cases ---------------------------------------------------------------
     def gen_case(self, rng, i, tier):
         return gen_c09.gen_case(rng)
+
+    SEQS = [["LC", "C", "X", "U"], ["X", "M", "C", "LU"], ["D", "G", "C"], ["C", "LC", "C"]]
+    CONFIGS = [["replace"], ["interactive"], ["diff-replace"], ["print"], ["actions", ["REPLACE"]],
+               ["actions", ["QUERY", "REPLACE"]], ["actions", ["REPLACE", "EXIT1"]], ["actions", ["EXIT1", "REPLACE"]],
+               ["actions", ["PRINT", "IFCHANGED", "REPLACE"]], ["actions", ["IFCHANGED", "QUERY", "REPLACE", "PRINT"]],
+               ["actions", ["EXECUTE:echo", "REPLACE"]], None]
+
+    def exhaustive_cases(self, tier, rng):
+        """Small scope, exhaustively (thorough) or sampled (quick):
+        (A) every action list of length <= 3 over {PRINT, REPLACE, IFCHANGED, QUERY, DIFF|EXECUTE, EXIT1}
+            x {no --symlinks, --symlinks=p before, --symlinks=p after the action option} x 4 fixed file sequences
+            x 2 answer patterns (one sequence / pattern per configuration, rotating; all of them in thorough);
+        (B) every file sequence of length <= 3 over {changed, unchanged, unparsable, symlink, dangling, missing,
+            directory} x 12 configurations x {policy after the action option} (one policy per case, rotating)."""
+        base = ["PRINT", "REPLACE", "IFCHANGED", "QUERY", "X", "EXIT1"]
+        lists = []
+        for n in (1, 2, 3):
+            lists.extend(itertools.product(base, repeat=n))
+        ext = ["DIFF", "EXECUTE:true", "EXECUTE:echo"]
+        placements = [None] + [(p, w) for p in POLICIES for w in ("before", "after")]
+        answer_pats = [["y"] * 8, ["n", "y", "", "yes", "y", "y"]]
+        A = []
+        idx = 0
+        for al in lists:
+            for pl in placements:
+                idx += 1
+                acts = [ext[(idx + j) % 3] if a == "X" else a for j, a in enumerate(al)]
+                opts = [["actions", acts]]
+                if pl:
+                    opts = ([["symlinks", pl[0]]] + opts) if pl[1] == "before" else (opts + [["symlinks", pl[0]]])
+                combos = [(s, a) for s in range(len(self.SEQS)) for a in range(2)] if tier == "thorough" \
+                    else [(idx % len(self.SEQS), (idx // 4) % 2)]
+                for si, ai in combos:
+                    tool, extra = gen_c09.TOOLS[idx % 3] if si == 0 else gen_c09.TOOLS[0]
+                    tree, args = gen_c09.tree_of_kinds(self.SEQS[si], tool)
+                    A.append(dict(tool=tool, extra=list(extra), opts=opts, tree=tree, args=args,
+                                  answers=answer_pats[ai], after=0))
+        B = []
+        kinds = ["C", "U", "X", "LC", "G", "M", "D"]
+        idx = 0
+        for n in (1, 2, 3):
+            for seq in itertools.product(kinds, repeat=n):
+                for cfg in self.CONFIGS:
+                    idx += 1
+                    pols = POLICIES + [None] if tier == "thorough" else [(POLICIES + [None])[idx % 5]]
+                    for pol in pols:
+                        opts = [cfg] if cfg else []
+                        if pol:
+                            opts = opts + [["symlinks", pol]]
+                        tree, args = gen_c09.tree_of_kinds(list(seq), "tidy-imports")
+                        B.append(dict(tool="tidy-imports", extra=[], opts=opts, tree=tree, args=args,
+                                      answers=["y", "n", "y", "y"], after=idx % 2))
+        if tier == "thorough":
+            return A + B
+        return rng.sample(A, 90) + rng.sample(B, 90)
 
     # -- implementation ------------------------------------------------------
     def run_impl(self, case):
@@ -570,7 +686,7 @@ class C09(Prop):
                 t.encode("utf-8")
             except UnicodeEncodeError:
                 unreadable.append(i)
-        return [dict(op="main", tty=False, opts=opts, fs=fs, rw=rw, unreadable=unreadable, args=[pid[a] for a in case["args"]],
+        return [dict(op="main", tty=False, keep=bool(self._keep), opts=opts, fs=fs, rw=rw, unreadable=unreadable, args=[pid[a] for a in case["args"]],
                      answers=list(case.get("answers", [])), paths=[pid[n] for n in names])]
 
     ERRCLASS = {"bad filename": "bad", "EOFError": "eof", "FileNotFoundError": "io", "IsADirectoryError": "io",
